@@ -1,0 +1,12 @@
+//go:build verif
+
+package streams
+
+import internaltypes "lunar/engine/streams/internal-types"
+
+// VerifFilterTree exposes the filter tree to verification harnesses: the order in which flows were
+// added (Go map iteration order of the flow representations) and, through FlowI/FlowDirectionI, the
+// built flow graphs.
+func (s *Stream) VerifFilterTree() internaltypes.FilterTreeI {
+	return s.filterTree
+}
